@@ -20,8 +20,8 @@ func VerifC17Policy() {
 	verifrt.Assume(verifrt.And(minW >= 0, minW <= maxW))
 	maxRetry := int(verifrt.Int64())
 	attempt := int(verifrt.Int64())
-	predOK := verifrt.Bool()
-	predErr := verifrt.Bool()
+	predOK := verifrt.SymBool()
+	predErr := verifrt.SymBool()
 	back := time.Duration(verifrt.Int64())
 	calledBackoff := false
 	p := &GenericPolicy{
